@@ -375,7 +375,7 @@ class _GlobSplit(Generic[AnyStr]):
 
         if (
             (self.extmatchbase and not parts[0].is_drive) or
-            (self.matchbase and len(parts) == 1 and not parts[0].dir_only)
+            (self.matchbase and len(parts) == 1 and not parts[0].dir_only and not split_index)
         ):
             if self.globstarlong and self.follow:
                 gstar = b'***' if is_bytes else '***'  # type: Any
